@@ -49,7 +49,8 @@ def run_program(case):
         if op[0] == 'fill':
             _, _, _, qty, price, comm = op
             old = net.get(a, 0)
-            port.transact_asset(q.Transaction(a, qty, t, price, 'o%d' % i, commission=comm))
+            oid = ('o%d' % (i // 3)) if case.get('repeat_order_ids') else 'o%d' % i
+            port.transact_asset(q.Transaction(a, qty, t, price, oid, commission=comm))
             net[a] = old + qty
             last[a] = F(price)
             nfills += 1
@@ -96,6 +97,8 @@ def run_program(case):
             raise Violation('step %d %s: total equity %r != cash %r + market value %r' % (
                 i, op, port.total_equity, port.cash, float(mv)))
     nt = ('reopened' in flags or 'flipped' in flags) and 'mark_on_held' in flags and nfills >= 2
+    if case.get('repeat_order_ids'):
+        flags.add('fills_sharing_order_ids')
     return Result(sorted(flags) + ['assets_%d' % case['na']], nontrivial=nt, info={'fills': nfills})
 
 
@@ -124,7 +127,8 @@ def programs(draw):
             ops.append(['fill', dt, a, qty, draw(gen.prices), comm])
         else:
             ops.append(['mark', dt, a, draw(gen.prices)])
-    return {'cash': draw(st.sampled_from([0.0, 1e4, 1e6])), 'na': na, 'ops': ops, 'starting_cash': draw(st.booleans())}
+    return {'cash': draw(st.sampled_from([0.0, 1e4, 1e6])), 'na': na, 'ops': ops, 'starting_cash': draw(st.booleans()),
+            'repeat_order_ids': draw(st.sampled_from([False, False, True]))}
 
 
 def new_harness():
